@@ -15,7 +15,7 @@ import z3
 
 from pyvc.execu import z3ify
 from pyvc.main import Prop
-from pyvc.values import Fn, Obj, Opaque, Undecided
+from pyvc.values import Fn, Obj, Opaque, PyRaise, Undecided
 from . import C14  # noqa: F401  (installs the extra Vec methods: masked_fill, clip, device)
 from . import tensors as TT
 from .C19 import MX
@@ -31,6 +31,9 @@ def mx_getattr(self, ex, st, name):
         return Fn(model=lambda ex, st, a, k: MX(("sum", self.node, k.get("dim", a[0] if a else None))), name="sum")
     if name == "shape":
         return ("B", "D")
+    if name == "reshape":
+        # reshape to the distribution's own batch shape: the abstract action already has it (values and order are unchanged)
+        return Fn(model=lambda ex, st, a, k: self, name="reshape")
     return MX._orig_getattr(self, ex, st, name)
 
 
@@ -73,14 +76,36 @@ def nd_contracts(P):
             if name == "log_prob":
                 def lp(ex, st, a, k):
                     x = a[0]
-                    if not (isinstance(x, ND) and len(x.shape) == len(self.shape) and all(ndt.same_dim(p, q) for p, q in zip(x.shape, self.shape))):
-                        raise Undecided(f"log_prob of a value of shape {getattr(x, 'shape', None)} under a distribution of batch shape {self.shape}")
-                    return ND(self.shape, lambda idx: self._el(LP, idx, TT.toreal(x.at(idx))), "logp")
+                    if not isinstance(x, ND):
+                        raise Undecided("log_prob of a non-tensor")
+                    if len(x.shape) == len(self.shape) and all(ndt.same_dim(p, q) for p, q in zip(x.shape, self.shape)):
+                        return ND(self.shape, lambda idx: self._el(LP, idx, TT.toreal(x.at(idx))), "logp")
+                    # torch broadcasts the value against the batch shape (trailing dimensions aligned, 1 repeats)
+                    n = max(len(x.shape), len(self.shape))
+                    sx, sd = [1] * (n - len(x.shape)) + list(x.shape), [1] * (n - len(self.shape)) + list(self.shape)
+                    shape, mx, md = [], [], []
+                    for p, q in zip(sx, sd):
+                        if ndt.same_dim(p, q):
+                            shape.append(p), mx.append(True), md.append(True)
+                        elif ndt.cp(p) == (1, None):
+                            shape.append(q), mx.append(False), md.append(True)
+                        elif ndt.cp(q) == (1, None):
+                            shape.append(p), mx.append(True), md.append(False)
+                        else:
+                            raise PyRaise("ValueError")
+
+                    def at(idx):
+                        fx = [idx[i] if mx[i] else z3.IntVal(0) for i in range(n)][n - len(x.shape):]
+                        fd = [idx[i] if md[i] else z3.IntVal(0) for i in range(n)][n - len(self.shape):]
+                        return self._el(LP, fd, TT.toreal(x.at(fx)))
+                    return ND(shape, at, "logp.broadcast")
                 return Fn(model=lp, name=name)
             if name == "entropy":
                 return Fn(model=lambda ex, st, a, k: ND(self.shape, lambda idx: self._el(EN, idx), "entropy"), name=name)
             if name == "sample":
                 return Fn(model=lambda ex, st, a, k: ND(self.shape, lambda idx: self._el(SM, idx), "sample"), name=name)
+            if name == "batch_shape":
+                return tuple(self.shape)
             raise Undecided(f"distribution attribute {name}")
     made = []
 
@@ -143,6 +168,20 @@ def nd_contracts(P):
                    requires=[], modifies=[], ensures=[f"en_multi_{K}(result)"], replay="c16:logprob")
         P.contract(H + "MultiCategoricalHandler.sample", variant=f"K{K}", params={"self": "opaque", "distribution": (lambda ex, st, l, ds=ds: list(ds))},
                    requires=[], modifies=[], ensures=[f"sm_multi_{K}(result)"], replay="c16:logprob")
+    # a stored action of a ONE-component space comes back from the rollout buffer flattened to (B,): the log-probability of row b is
+    # still the density of row b's distribution at row b's action (B = 3 concrete here; torch broadcasts (B,) against (B, 1))
+    for kind, hname in (("Normal", "NormalHandler"), ("Bernoulli", "BernoulliHandler")):
+        d1 = Dist(kind, 30, [3, 1])
+
+        def td_self(ex, st, label, d1=d1, hname=hname):
+            o = Obj(NET + "TorchDistribution", label="self")
+            o.fields.update(dict(distribution=d1, squash_output=False, sampled_action=None, _handler=Obj(NET + hname, label="handler")))
+            return o
+        P.specns[f"lp_flat_{kind}"] = (lambda r: z3.BoolVal(False) if not (isinstance(r, ND) and len(r.shape) == 1 and ndt.cp(r.shape[0]) == (3, None)) else
+                                       z3.And(*[r.at([z3.IntVal(b)]) == LP(30, b, 0, ACT(b, 0)) for b in range(3)]))
+        P.contract(NET + "TorchDistribution.log_prob", variant=f"flat-action-{kind}", frame_fields=False,
+                   params={"self": td_self, "action": (lambda ex, st, l: ND([3], lambda idx: ACT(z3ify(idx[0]), z3.IntVal(0)), "stored_action"))},
+                   requires=[], ensures=[f"lp_flat_{kind}(result)"], replay={"adapter": "demos:run", "payload": {"name": "C16_demo_1"}})
     dc = Dist("Categorical", 20, [B])
     P.specns["lp_cat"] = lambda r: z3.BoolVal(False) if not is_vec(r) else rows(lambda b: r.at([b]) == LP(20, b, 0, ACT(b, 0)))
     P.contract(H + "CategoricalHandler.log_prob", params={"self": "opaque", "distribution": (lambda ex, st, l: dc),
@@ -298,7 +337,7 @@ def build(tier):
         def setup(ex, st, fr, h=h, squash=squash):
             h.calls.clear()
             st.locals["self"] = Obj("model.TorchDistribution", {"squash_output": squash, "sampled_action": MX("latest_sample"), "_handler": h,
-                                                                 "distribution": Opaque("dist")}, label="self")
+                                                                 "distribution": Obj("model.Distribution", {"batch_shape": ("B", "D")}, label="dist")}, label="self")
             st.locals["action"] = MX("action")
         tag = "squash" if squash else "plain"
         corr = ("sum", ("log", ("add", ("sub", ("scalar", 1), ("pow", "action", 2)), ("scalar", z3.RealVal("1/1000000")))), 1)
